@@ -446,3 +446,22 @@ def call_keywords(ctx, call, module=None):
         else:
             out.append((None, v))
     return out
+
+
+def module_function_lookup(ctx, mod, extra, skip=()):
+    """__global_lookup__ for sa/miniinterp.py: module-level functions of `mod` are interpreted (same hooks), module-level
+    constants are folded"""
+    from .. import miniinterp as MI
+    fnodes = {f.name: f for q, f in ctx.repo.funcs.items() if f.module is mod and f.parent is None and f.cls is None}
+
+    def look(name):
+        if name in skip:
+            return False, None
+        f = fnodes.get(name)
+        if f is not None:
+            return True, (lambda *a, **k: MI.call_function(f.node, list(a), extra, k))
+        v = ctx.try_fold(ast.Name(id=name, ctx=ast.Load()), mod)
+        if v is not None:
+            return True, v
+        return False, None
+    return look
